@@ -1134,7 +1134,16 @@ impl EngA {
                         tagged = true;
                     }
                     let alt_text = render(&vec![alt.clone()], &[]);
-                    let Ok(Ok(ra)) = guarded(|| Range::parse(&alt_text)) else { continue };
+                    let Ok(Ok(ra)) = guarded(|| Range::parse(&alt_text)) else {
+                        // the crate gives this alternative no bounds at all: if npm's reading admits
+                        // something there, those versions (prereleases included, the gate being
+                        // open by the written tag) are expected (C03-8: a tagged exact comparator
+                        // next to an untagged one dropped as a whole)
+                        if let Some(s) = desugar(&vec![alt.clone()]) {
+                            expected.or_assign(&self.ref_bits(&s));
+                        }
+                        continue;
+                    };
                     let w = within_bits(u, &intervals_of(&ra));
                     let mut gate = u.rel.clone();
                     for t in &written {
